@@ -73,6 +73,11 @@ def gen_harness(ext, path):
                  '  __CPROVER_assert(verif_deref, "O_elem: Data::operator[](size_t) returns an element");\n}\n')
     parts.append('\nvoid h_decl_array(void) {\n  int size = nondet_int();\n  wit_v1 = size; wit_v2 = 0;\n  verif_n = 0;\n  decl_array(size);\n  __CPROVER_assert(0, "CANARY returns");\n'
                  '  __CPROVER_assert(verif_declared == size, "O_decl: the declared size is recorded");\n}\n')
+    parts.append('\nunsigned long nondet_ulong_in(void);\nvoid h_init_slice(void) {\n  size_t atom_len = nondet_ulong_in();\n  int interpreted = nondet_int(), other = nondet_int(), json_empty = nondet_int();\n'
+                 '  int empty = (atom_len == 0 && !other);\n  wit_v1 = empty; wit_v2 = 0;\n  verif_storev = 0;\n  init_slice(atom_len, interpreted, other, json_empty);\n  __CPROVER_assert(0, "CANARY returns");\n'
+                 '  __CPROVER_assert(!empty || verif_storev == 0, "O_default: a <data> element without a value leaves the declared variable at the default of its declaration (0) - it is not assigned");\n'
+                 '  __CPROVER_assert(empty || verif_storev >= 1, "O_default: a <data> element with a value assigns it to the declared variable");\n}\n')
+    entries.append(('h_init_slice', 'INIT', 1))
     parts.append('\nvoid h_arms_present(void) {\n  __CPROVER_assert(0, "CANARY returns");\n')
     for t in pml_extract.OPS:
         parts.append('  __CPROVER_assert(%d, "O_present: evaluateExpr has an arm for operator token %s (\'%s\') - otherwise a well-typed expression is rejected as not implemented");\n'
@@ -193,6 +198,42 @@ DOC_AL = '''<?xml version="1.0" encoding="UTF-8"?>
   <final id="fail"/>
 </scxml>
 '''
+
+
+DOC_INIT = '''<?xml version="1.0" encoding="UTF-8"?>
+<scxml xmlns="http://www.w3.org/2005/07/scxml" initial="s0" datamodel="promela" version="1.0">
+  <datamodel>
+    <data id="x" type="int"/>
+    <data id="y" type="int" expr="7"/>
+    <data id="arr" type="int[2]"/>
+  </datamodel>
+  <state id="s0">
+    <onentry><raise event="done"/></onentry>
+    <transition event="error.execution" target="fail"/>
+    <transition event="done" cond="x + 1 == 1 &amp;&amp; y == 7 &amp;&amp; arr[1] + 1 == 1" target="pass"/>
+    <transition event="*" target="fail"/>
+  </state>
+  <final id="pass"/>
+  <final id="fail"/>
+</scxml>
+'''
+
+
+def native_replay_init(wd):
+    """value-less <data> elements must read 0, one with expr its value; run by the real test-state-pass. returns (reproduced, text)"""
+    exe, err = build_native()
+    if not exe:
+        return False, 'cannot build test-state-pass: ' + err
+    os.makedirs(wd, exist_ok=True)
+    path = os.path.join(wd, 'replay_init.scxml')
+    open(path, 'w').write(DOC_INIT)
+    try:
+        p = subprocess.run([exe, path], capture_output=True, text=True, timeout=120, errors='replace')
+        rc = p.returncode
+        tail = (p.stdout + p.stderr).strip().splitlines()[-4:]
+    except subprocess.TimeoutExpired:
+        rc, tail = 'timeout', []
+    return (rc != 0), 'document %s: <data id="x" type="int"/>, <data id="y" type="int" expr="7"/>, <data id="arr" type="int[2]"/>, expects x + 1 == 1 && y == 7 && arr[1] + 1 == 1; test-state-pass exit=%s %s' % (path, rc, ' / '.join(tail)[-300:])
 
 
 def native_replay_decl(size, wd):
@@ -428,6 +469,8 @@ def run(tier):
     part.functions.append({'function': 'PromelaDataModel::evaluateDecl, branch PML_VAR_ARRAY (array declaration)', 'file': '%s:%d' % (pml_extract.SRC, ext['decl_array']['line']),
                            'route': 'R3 extract -> decl_array in work/pml/pml_extracted.c; value list abstracted to its length; one loop contract',
                            'dropped': ext['decl_array']['dropped']})
+    part.functions.append({'function': 'PromelaDataModel::init (decision whether the declared variable is assigned)', 'file': '%s:%d-%d' % ((pml_extract.SRC,) + tuple(ext['init_slice']['lines'])),
+                           'route': 'R3 extract (slice) -> init_slice in work/pml/pml_extracted.c', 'dropped': ext['init_slice']['dropped']})
     part.functions.append({'function': 'Data::operator[](const size_t index)', 'file': '%s:%d-%d' % ((pml_extract.DATA_H,) + tuple(ext['data_subscript_lines'])),
                            'route': 'R3 extract -> data_subscript in work/pml/pml_extracted.c; std::list abstracted to its length, iterator to its position; two loop contracts',
                            'dropped': 'the payload of the list elements'})
@@ -472,6 +515,14 @@ def run(tier):
                 path = common.write_replay('C17', '%s_%s' % (r['name'], f['property']), payload)
                 part.violations.append({'obligation': '%s %s' % (r['name'], f['property']), 'replay': path, 'reproduced': ok,
                                         'what': '%s | list length %s, index %s | %s' % (f['description'], n_, idx_, text), 'token': tok, 'arity': 2, 'kind': 'elem', 'v1': ridx, 'v2': ridx + 1})
+                continue
+            if tok == 'INIT':
+                ok, text = native_replay_init(wd)
+                payload = {'property': 'C17', 'engine': 'pmlarms', 'obligation': f['property'], 'description': f['description'], 'token': tok, 'arity': 1,
+                           'data_empty': v1, 'v1': v1 if v1 is not None else 1, 'v2': 0, 'native_replay_output': text}
+                path = common.write_replay('C17', '%s_%s' % (r['name'], f['property']), payload)
+                part.violations.append({'obligation': '%s %s' % (r['name'], f['property']), 'replay': path, 'reproduced': ok,
+                                        'what': '%s | %s' % (f['description'], text), 'token': tok, 'arity': 1, 'kind': 'init', 'v1': v1 if v1 is not None else 1, 'v2': 0})
                 continue
             if tok == 'DECL':
                 rs = v1 if (v1 is not None and 1 <= v1 <= 6) else 3
@@ -529,6 +580,8 @@ def replay(path):
         if not ok:
             ok, t2 = native_replay_elem(d['v1'], os.path.join(common.WORK, 'pml'))
             text += ' || ' + t2
+    elif d['token'] == 'INIT':
+        ok, text = native_replay_init(os.path.join(common.WORK, 'pml'))
     elif d['token'] == 'DECL':
         ok, text = native_replay_decl(d['v1'], os.path.join(common.WORK, 'pml'))
     elif d['token'] == 'ARRLEN':
